@@ -36,18 +36,34 @@ struct Run {
     ok: bool,
     class: String,
     dump: String,
+    /// `VERIF-CONVERTED key=value` lines: what main() derives from the parsed options
+    conv: std::collections::BTreeMap<String, String>,
 }
 
 fn run(bin: &Path, args: &[String], cwd: &Path) -> Run {
     let o = Command::new(bin).args(args).env("ANTNODE_VERIF_DUMP_OPTS", "1").env_remove("ANT_PEERS").current_dir(cwd).output();
     match o {
-        Err(e) => Run { ok: false, class: format!("spawn:{e}"), dump: String::new() },
+        Err(e) => Run { ok: false, class: format!("spawn:{e}"), dump: String::new(), conv: Default::default() },
         Ok(o) => {
             let out = String::from_utf8_lossy(&o.stdout).to_string();
             let err = String::from_utf8_lossy(&o.stderr).to_string();
             if o.status.success() && out.trim_start().starts_with("Opt {") {
-                let compact: String = out.chars().filter(|c| !c.is_whitespace()).collect();
-                Run { ok: true, class: "ok".into(), dump: compact }
+                let mut conv = std::collections::BTreeMap::new();
+                let mut dump = String::new();
+                for l in out.lines() {
+                    match l.strip_prefix("VERIF-CONVERTED ") {
+                        Some(kv) => {
+                            let (k, v) = kv.split_once('=').unwrap_or((kv, ""));
+                            conv.insert(k.to_string(), v.to_string());
+                        }
+                        None => {
+                            dump.push_str(l);
+                            dump.push('\n');
+                        }
+                    }
+                }
+                let compact: String = dump.chars().filter(|c| !c.is_whitespace()).collect();
+                Run { ok: true, class: "ok".into(), dump: compact, conv }
             } else {
                 let class = if err.contains("cannot be used with") {
                     "conflict"
@@ -64,7 +80,7 @@ fn run(bin: &Path, args: &[String], cwd: &Path) -> Run {
                 } else {
                     "other"
                 };
-                Run { ok: false, class: format!("err:{class}"), dump: err.lines().next().unwrap_or("").to_string() }
+                Run { ok: false, class: format!("err:{class}"), dump: err.lines().next().unwrap_or("").to_string(), conv: Default::default() }
             }
         }
     }
@@ -137,6 +153,41 @@ fn intended(rec: &Rec, root: &Path, port_override: Option<String>) -> Vec<String
     v.push(v_evm);
     // the dump is compared with all white space removed
     v.into_iter().map(|f| f.chars().filter(|c| !c.is_whitespace()).collect()).collect()
+}
+
+/// what main() must derive from the arguments for this record: the configuration the node actually runs
+/// with, after the conversions applied to the parsed `Opt` (EVM network, rewards address, listen address,
+/// root dir, log destination / format, network id, bootstrap cache file, metrics port)
+fn intended_converted(rec: &Rec, root: &Path, port_override: Option<String>) -> Vec<(String, String)> {
+    let r = root.to_string_lossy().to_string();
+    let sub = |s: String| s.replace("$R", &r);
+    let mut v: Vec<(String, String)> = vec![];
+    match rec.get("options.evm_network") {
+        Some("e:ArbitrumOne") => v.push(("evm_network".into(), "arbitrum-one".into())),
+        Some("e:ArbitrumSepolia") => v.push(("evm_network".into(), "arbitrum-sepolia".into())),
+        _ => {
+            v.push(("evm_network".into(), "custom".into()));
+            v.push(("evm_rpc_url".into(), rec.some("options.evm_network.rpc_url_http").unwrap_or_default()));
+            v.push(("evm_payment_token_address".into(), rec.some("options.evm_network.payment_token_address").unwrap_or_default()));
+            v.push(("evm_data_payments_address".into(), rec.some("options.evm_network.data_payments_address").unwrap_or_default()));
+        }
+    }
+    v.push(("rewards_address".into(), rec.some("options.rewards_address").unwrap_or_default()));
+    v.push((
+        "node_socket_addr".into(),
+        format!("{}:{}", rec.some("options.node_ip").unwrap_or_else(|| "0.0.0.0".into()), port_override.or_else(|| rec.some("node_port")).unwrap_or_else(|| "0".into())),
+    ));
+    v.push(("root_dir".into(), sub(rec.some("service_data_dir_path").unwrap_or_default())));
+    v.push(("log_output_dest".into(), sub(rec.some("service_log_dir_path").unwrap_or_default())));
+    v.push((
+        "log_format".into(),
+        match rec.some("options.log_format").as_deref() {
+            Some("json") => "Json".into(),
+            _ => "Default".to_string(),
+        },
+    ));
+    v.push(("metrics_server_port".into(), match rec.some("metrics_free_port") { Some(p) => format!("Some({p})"), None => "None".into() }));
+    v
 }
 
 /// the PeersArgs rules antctl's own parser enforces on its input
@@ -267,7 +318,38 @@ fn main() {
                 break;
             }
         }
-        if listen.is_none() && ri.dump != ru.dump {
+        for (which, run, port) in [("install", &ri, None), ("upgrade", &ru, listen.clone())] {
+            for (k, want) in intended_converted(&rec, &root, port) {
+                let got = run.conv.get(&k).cloned().unwrap_or_else(|| "<missing>".into());
+                if got != want {
+                    out.oracle_fail(
+                        &format!("{which}-runs-with-intended-configuration"),
+                        &line,
+                        &format!("after antnode's own conversions {k} = {got}, antctl was asked for {want}"),
+                    );
+                    break;
+                }
+            }
+            // network id: the protocol string ends with it (1 = main network when not given)
+            let id = rec.some("options.network_id").unwrap_or_else(|| "1".into());
+            let proto = run.conv.get("identify_protocol").cloned().unwrap_or_default();
+            if !proto.ends_with(&format!("/{id}")) {
+                out.oracle_fail(&format!("{which}-runs-with-intended-configuration"), &line, &format!("network id {id} asked for, identify protocol is {proto:?}"));
+            }
+            // bootstrap cache file inside the directory asked for
+            let cache = run.conv.get("bootstrap_cache_path").cloned();
+            let want_dir = rec.some("options.peers_args.bootstrap_cache_dir").map(|d| d.replace("$R", &root.to_string_lossy()));
+            let ok = match (&cache, &want_dir) {
+                (None, None) => true,
+                (Some(p), Some(d)) => Path::new(p).parent() == Some(Path::new(d)) && Path::new(p).file_name().map(|f| f.to_string_lossy().starts_with("bootstrap_cache_")).unwrap_or(false),
+                _ => false,
+            };
+            if !ok {
+                out.oracle_fail(&format!("{which}-runs-with-intended-configuration"), &line, &format!("bootstrap cache dir {want_dir:?} asked for, cache file is {cache:?}"));
+            }
+        }
+        out.count("converted-configuration-compared");
+        if listen.is_none() && (ri.dump != ru.dump || ri.conv != ru.conv) {
             out.oracle_fail("upgrade-parses-like-install", &line, "antnode parses the regenerated arguments to a different Opt than the installed ones");
         }
     }
